@@ -230,6 +230,14 @@ func applyBuildLimits(b *build) {
 		knobEnabled = false
 		fmt.Println(b.knobNote)
 	}
+	if len(b.instr.KnobEntangled) > 0 && knobEnabled {
+		// DefaultBlockSize is used inside expressions: a small value could give
+		// derived sizes (DefaultBlockSize/8, DefaultBlockSize-1 as a mask ...)
+		// that the tree never meets with its real constant. The knob then keeps
+		// to larger powers of two.
+		knobEntangled = true
+		fmt.Printf("DefaultBlockSize is used inside expressions (%s): the block-size knob keeps to powers of two >= 64\n", strings.Join(b.instr.KnobEntangled, ", "))
+	}
 	// the tree's library code uses sync / sync/atomic: a share of the runs
 	// preempts at the edges of critical sections (site class "sync")
 	syncLib = b.instr.SyncLib > 0
